@@ -333,7 +333,8 @@ def rule_defaults(E, R):
     for fn, c, hb_ in sites:
         defaults = {}
         for st in exprs(hb_["body"], "SLet"):
-            if "init" in st and st["pat"].get("k") == "PBinding" and any(f["name"] == "default_value" for f in exprs(st["init"], "Field")):
+            if "init" in st and st["pat"].get("k") == "PBinding" and any(f["name"] == "default_value" for f in exprs_deep(st["init"], "Field")) and \
+                    not closure_of(st["init"]):
                 defaults[st["pat"]["name"]] = "defaults"
         a, b = _origin(c["args"][0], hb_, defaults), _origin(c["args"][1], hb_, defaults)
         if fn == SIMPLE_COMPILE:
@@ -351,7 +352,8 @@ def rule_defaults(E, R):
     if hs:
         ok = False
         for st in exprs(hs["body"], "SLet"):
-            if st["pat"].get("k") == "PBinding" and "init" in st and any(f["name"] == "default_value" for f in exprs(st["init"], "Field")):
+            if st["pat"].get("k") == "PBinding" and "init" in st and any(f["name"] == "default_value" for f in exprs_deep(st["init"], "Field")) and \
+                    not closure_of(st["init"]):
                 root, ch = chain(st["init"])
                 src = let_init(hs["body"], local_name(root)) if local_name(root) else None
                 from_suffix = src is not None and any(root_is_field(i_["e"], "self", "opt_params") for i_ in exprs(src, "Index"))
